@@ -3,7 +3,7 @@
    path meets no symlink and the temporary name is free. *)
 From Coq Require Import List Arith NArith Bool Lia ZifyN ZifyNat ZifyBool.
 From FS Require Import Sx Model.Path Model.Stat Model.Validator Model.Fs Model.DiskWriterFs.
-From FS Require Import Proofs.Lex Proofs.PathP Proofs.FsP Proofs.FsReachP Proofs.FsFrameP Proofs.FsSysP.
+From FS Require Import Proofs.Lex Proofs.PathP Proofs.ValidatorP Proofs.FsP Proofs.FsReachP Proofs.FsFrameP Proofs.FsSysP.
 Import ListNotations.
 Open Scope N_scope.
 Open Scope bool_scope.
@@ -90,6 +90,22 @@ Definition solid (st : stat) : bool :=
   mode_is_dir m || (has_bits m ModeDevice || has_bits m ModeNamedPipe)
   || (negb (mode_is_symlink m) && is_nil (st_linkname st)).
 
+Lemma nth_split_prefix (pre cs : list bytes) k n : firstn k cs = pre -> nth_error cs k = Some n -> is_prefix (pre ++ [n]) cs.
+Proof.
+  intros H1 H2. rewrite <- (firstn_skipn k cs). rewrite H1.
+  assert (E : exists r, skipn k cs = n :: r).
+  { clear H1. revert cs H2. induction k as [|k IH]; intros cs H2.
+    - destruct cs; simpl in *; [discriminate|]. inversion H2; subst. eauto.
+    - destruct cs; simpl in *; [discriminate|]. apply IH. exact H2. }
+  destruct E as [r ->]. exists r. rewrite <- app_assoc. reflexivity.
+Qed.
+
+(* the creation switch takes the os.Link arm *)
+Definition hardlink_branch (st : stat) : bool :=
+  let m := st_mode st in
+  negb (mode_is_dir m) && negb (has_bits m ModeDevice || has_bits m ModeNamedPipe)
+  && negb (mode_is_symlink m) && negb (is_nil (st_linkname st)).
+
 Section Handle.
 Variables (c : ctx) (f : fs) (tmp : bytes) (p : bytes) (pre : list bytes) (bn : bytes) (st : stat).
 Hypothesis W : wf f.
@@ -100,7 +116,7 @@ Hypothesis Hne : tmp <> bn.
 Hypothesis Hsafe : safe f D pre.
 Hypothesis Hfree : forall dd, rwalk f D pre = Some dd -> blookup tmp (ents f dd) = None.
 (* the source of a hard link: a path whose parent chain is safe *)
-Hypothesis Hlink : is_nil (st_linkname st) = false ->
+Hypothesis Hlink : hardlink_branch st = true ->
   exists pre1 n1, relpath (st_linkname st) (pre1 ++ [n1]) /\ safe f D pre1.
 
 Let b := f_next f.
@@ -223,7 +239,8 @@ Proof.
     + rewrite (Habs dd i A1 A2) in A3. discriminate.
     + destruct (Hfresh g _ Cr) as (dd & i' & B1 & B2 & B3 & B4 & B5).
       exists dd, i'. repeat split; auto; try discriminate; intros; apply B5; simpl; discriminate.
-  - destruct (Hlink eq_refl) as (pre1 & n1 & Hrel1 & Hs1).
+  - assert (Hhb : hardlink_branch st = true) by (unfold hardlink_branch; rewrite Edir, Edev, Esym, Eln; reflexivity).
+    destruct (Hlink Hhb) as (pre1 & n1 & Hrel1 & Hs1).
     destruct (sys_link_step D (Tn nm) b c f (st_linkname st) q pre1 n1 pre nm W Hb Hc Hrel1 Hq Hs1 Hsafe HT) as [S P].
     destruct (sys_link c f (st_linkname st) q) as [g r] eqn:E. cbn [fst snd] in *.
     split; auto. intros Hok. apply negb_true_iff in Hok.
@@ -508,6 +525,35 @@ Proof.
         exact (dw_replace_spec dd oi ond
                  (negb (Bool.eqb (match i_kind ond with KDir _ _ => true | _ => false end) (mode_is_dir (st_mode st))))
                  (mode_is_dir (st_mode st)) Hw Hd Hbl Hg).
+Qed.
+
+
+(* ---- paths that do not run through the two entries are left alone ---- *)
+Definition off (cs : list bytes) : Prop := ~ is_prefix (pre ++ [bn]) cs /\ ~ is_prefix (pre ++ [tmp]) cs.
+
+Lemma off_avoids cs : off cs -> avoids Tp f D cs.
+Proof.
+  intros [H1 H2]. apply (avoids_by_path D Tp f W pre).
+  - intros d m (A & B & _). auto.
+  - intros k m HT Hk E. destruct (rwalk f D pre) as [dd|] eqn:Ew.
+    + destruct HT as (_ & _ & [->| ->]); [apply H1|apply H2]; apply (nth_split_prefix pre cs k); auto.
+    + destruct HT as (A & _). congruence.
+Qed.
+
+Lemma kept_safe g cs : step Tp b f g -> off cs -> safe f D cs -> safe g D cs.
+Proof. intros S Ho Hs. apply (safe_step D Tp b f g W S cs D (reach_refl D f) (off_avoids cs Ho) Hs). Qed.
+
+Lemma kept_rwalk g cs : step Tp b f g -> off cs -> rwalk g D cs = rwalk f D cs.
+Proof. intros S Ho. apply (rwalk_step D Tp b f g W S cs D (reach_refl D f) (off_avoids cs Ho)). Qed.
+
+(* an entry (dd', n') met on such a path is not one of the two *)
+Lemma kept_dent g pre' n' dd' : step Tp b f g -> off (pre' ++ [n']) -> rwalk f D pre' = Some dd' ->
+  blookup n' (ents g dd') = blookup n' (ents f dd').
+Proof.
+  intros S [H1 H2] Hw. apply (st_dent _ _ _ _ _ S dd' n').
+  - apply (reach_lt D f dd' W (reach_dd f pre' dd' Hw)).
+  - intros (A & B & C). assert (E : pre' = pre) by (apply (rwalk_unique D f W pre' pre dd'); auto). subst pre'.
+    destruct C as [->| ->]; [apply H1|apply H2]; exists []; rewrite app_nil_r; reflexivity.
 Qed.
 
 End Handle.
